@@ -1,10 +1,66 @@
-(* C10/Refuted.v -- full statements of property C10 that the faithful model (= the code as it is) violates,
-   with the witnesses recorded in /verif/known_findings.json (nts-duplicate-replica, nts-unknown-dc-panic).
-   Each witness satisfies every well-formedness hypothesis of the theorems in Props.v except the one that
-   excludes the defect. *)
+(* C10/Refuted.v -- regression facts about networkTopology.replicaMap as it was BEFORE the two repairs
+   recorded in /verif/known_findings.json (nts-duplicate-replica, nts-unknown-dc-panic; both fixed).
+   [PreFix] is the model of the old code: no seenHosts set in the inner loop, and the closing size check
+   counting every keyspace DC with a positive factor.  The witnesses satisfy every well-formedness hypothesis of
+   the theorems in Props.v; on the current model (C10/Model.v) the same inputs give Cassandra's answers
+   (the *_now facts), which Props.v proves for all inputs. *)
 From GocqlV Require Import Lib.Base C10.Model C10.Spec C10.Proofs1 C10.Proofs6.
 From Coq Require Import Sorting.Sorted.
 Open Scope Z_scope.
+
+Module PreFix.
+  Section Old.
+    Context {T : Type}.
+    Variable info : Z -> hinfo.
+    Variable dcs : amap Z.
+    Variable dc_racks : amap (list (list Z)).
+
+    Fixpoint nts_loop (walk : list Z) (st : nts_state) : res nts_state :=
+      match walk with
+      | [] => Ok st
+      | h :: rest =>
+          if nts_guard dcs st
+          then match nts_step info dcs dc_racks st h with
+               | Ok st' => nts_loop rest st'
+               | Crash c => Crash c
+               end
+          else Ok st
+      end.
+
+    Definition nts_token (ring_hosts : list Z) (i : nat) (th : Z) : res (list Z) :=
+      match nts_loop (rotate i ring_hosts) (nts_state0 dcs dc_racks) with
+      | Crash c => Crash c
+      | Ok st =>
+          match ns_replicas st with
+          | [] => Crash PanicNoReplicas
+          | r0 :: _ => if host_equal info r0 th then Ok (ns_replicas st) else Crash PanicNotPrimary
+          end
+      end.
+
+    Fixpoint nts_outer (ring_hosts : list Z) (l : list (nat * (T * Z))) (acc : @rmap T) : res (@rmap T) :=
+      match l with
+      | [] => Ok acc
+      | (i, (tok, th)) :: l' =>
+          if getz dcs (dc_of info th) =? 0 then nts_outer ring_hosts l' acc
+          else match nts_token ring_hosts i th with
+               | Crash c => Crash c
+               | Ok reps => nts_outer ring_hosts l' (acc ++ [(tok, reps)])
+               end
+      end.
+
+    Definition dcs_with_replicas : nat := length (filter (fun e => snd e >? 0) dcs).
+  End Old.
+
+  Definition nts_replica_map {T} (info : Z -> hinfo) (dcs : amap Z) (hosts : list Z) (r : @ring T) : res (@rmap T) :=
+    let dc_racks := mk_dc_racks info hosts in
+    match nts_outer info dcs dc_racks (map snd r) (indexed r) [] with
+    | Crash c => Crash c
+    | Ok m =>
+        if (dcs_with_replicas dcs =? length dc_racks)%nat && negb (length m =? length r)%nat
+        then Crash PanicSize
+        else Ok m
+    end.
+End PreFix.
 
 Module Witness.
   Definition dc1 : str := [100; 99; 49].
@@ -32,13 +88,13 @@ Proof.
   apply negb_true_iff in H1. exact H1.
 Qed.
 
-(* F-C10-1: with several tokens per host NetworkTopologyStrategy's replica list names a host twice:
+(* F-C10-1 (fixed): with several tokens per host the old NetworkTopologyStrategy code named a host twice:
    3 hosts x 2 tokens, one rack, dc1: 2 -> token 0 is given [0; 0] *)
 Theorem nts_duplicate_refuted :
   exists (info : Z -> hinfo) (dcs : amap Z) (hosts : list Z) (r : @ring Z),
     Forall (fun e => 0 <= snd e) dcs /\ NoDup (map fst dcs) /\ sorted_toks Z.ltb r
     /\ (forall h, In h hosts <-> In h (map snd r))
-    /\ exists m reps, nts_replica_map info dcs hosts r = Ok m /\ In (0, reps) m /\ ~ NoDup reps.
+    /\ exists m reps, PreFix.nts_replica_map info dcs hosts r = Ok m /\ In (0, reps) m /\ ~ NoDup reps.
 Proof.
   exists one_rack, [(dc1, 2)], [0; 1; 2], ring_vnodes.
   split; [repeat constructor; simpl; lia|]. split; [repeat constructor; simpl; tauto|].
@@ -54,7 +110,7 @@ Theorem nts_vnodes_not_cassandra_refuted :
   exists (info : Z -> hinfo) (dcs : amap Z) (hosts : list Z) (r : @ring Z) (m : @rmap Z) (t : Z),
     Forall (fun e => 0 <= snd e) dcs /\ NoDup (map fst dcs) /\ sorted_toks Z.ltb r
     /\ (forall h, In h hosts <-> In h (map snd r))
-    /\ nts_replica_map info dcs hosts r = Ok m
+    /\ PreFix.nts_replica_map info dcs hosts r = Ok m
     /\ reps_or_nil (replicas_for Z.ltb m t) = [0; 0]
     /\ nts_natural_endpoints Z.ltb (dc_of info) (rack_of info) dcs r t = [0; 1].
 Proof.
@@ -71,7 +127,7 @@ Theorem nts_exceeds_nodes_refuted :
   exists (info : Z -> hinfo) (dcs : amap Z) (hosts : list Z) (r : @ring Z),
     Forall (fun e => 0 <= snd e) dcs /\ NoDup (map fst dcs) /\ sorted_toks Z.ltb r
     /\ (forall h, In h hosts <-> In h (map snd r))
-    /\ exists m e, nts_replica_map info dcs hosts r = Ok m /\ In e m
+    /\ exists m e, PreFix.nts_replica_map info dcs hosts r = Ok m /\ In e m
                    /\ (length (snd e) > length (nodup Z.eq_dec (map snd r)))%nat.
 Proof.
   exists one_rack, [(dc1, 2)], [0], [(0, 0); (10, 0)].
@@ -82,14 +138,14 @@ Proof.
   split; [vm_compute; reflexivity|]. split; [left; reflexivity|]. vm_compute. lia.
 Qed.
 
-(* F-C10-2: a keyspace replicated to a datacenter the ring does not contain panics with "token map different
+(* F-C10-2 (fixed): with the old code a keyspace replicated to a datacenter the ring does not contain panicked with "token map different
    size to token ring" when as many keyspace DCs have a factor as the ring has DCs: ring dc1 + dc2, keyspace
    {dc1: 1, dc3: 1} (one token per host, every hypothesis of the placement theorems holds) *)
 Theorem nts_unknown_dc_crash_refuted :
   exists (info : Z -> hinfo) (dcs : amap Z) (hosts : list Z) (r : @ring Z),
     Forall (fun e => 0 <= snd e) dcs /\ NoDup (map fst dcs) /\ sorted_toks Z.ltb r
     /\ NoDup (map snd r) /\ (forall h, In h hosts <-> In h (map snd r))
-    /\ nts_replica_map info dcs hosts r = Crash PanicSize.
+    /\ PreFix.nts_replica_map info dcs hosts r = Crash PanicSize.
 Proof.
   exists two_dcs, [(dc1, 1); (dc3, 1)], [0; 1], ring_two.
   split; [repeat constructor; simpl; lia|].
@@ -99,3 +155,15 @@ Proof.
   split; [intros h; simpl; intuition|].
   vm_compute. reflexivity.
 Qed.
+
+(* the same inputs on the current model: Cassandra's placement, no panic *)
+Example nts_vnodes_now :
+  nts_replica_map one_rack [(dc1, 2)] [0; 1; 2] ring_vnodes
+  = Ok [(0, [0; 1]); (10, [0; 1]); (20, [1; 2]); (30, [1; 2]); (40, [2; 0]); (50, [2; 0])].
+Proof. vm_compute. reflexivity. Qed.
+
+Example nts_one_host_now : nts_replica_map one_rack [(dc1, 2)] [0] [(0, 0); (10, 0)] = Ok [(0, [0]); (10, [0])].
+Proof. vm_compute. reflexivity. Qed.
+
+Example nts_unknown_dc_now : nts_replica_map two_dcs [(dc1, 1); (dc3, 1)] [0; 1] ring_two = Ok [(0, [0])].
+Proof. vm_compute. reflexivity. Qed.
